@@ -23,6 +23,13 @@ fn era(ts: i64) -> &'static str {
 
 /// one timestamp: in range -> round trip and field read-back; out of range -> panic
 fn case_ts(ts: i64, acc: &mut Acc) {
+    case_ts_inner(ts, acc);
+    if (ts as u64).wrapping_mul(0x9E37_79B9_7F4A_7C15) >> 61 == 0 {
+        crate::props::anchor::values(acc, "from_timestamp (purity probe)", &|| json!({"kind": "ts", "ts": ts}));
+    }
+}
+
+fn case_ts_inner(ts: i64, acc: &mut Acc) {
     acc.transitions += 4;
     acc.states += 1;
     let in_range = (TS_MIN..=TS_MAX).contains(&ts);
